@@ -175,21 +175,24 @@ Section Simd.
       end.
   End Kernel.
 
-  (* pssm rows as seen through pssmptr: the K cells followed by the padding *)
-  Definition pssm_mem (pssm pads : list (list T)) : list (list T) := map2 (@app T) pssm pads.
+  (* pssm rows as seen through pssmptr: the K cells of row j followed by whatever the
+     padding of the aligned row holds (pads j) *)
+  Definition pssm_mem_from (j0 : nat) (pssm : list (list T)) (pads : nat -> list T) : list (list T) :=
+    map (fun jr => snd jr ++ pads (fst jr)) (combine (seq j0 (length pssm)) pssm).
+  Definition pssm_mem := pssm_mem_from 0.
 
-  Definition avx2_permute_rows_into (cs : avx2_consts) (pssm pads : list (list T)) (q : sseq)
+  Definition avx2_permute_rows_into (cs : avx2_consts) (pssm : list (list T)) (pads : nat -> list T) (q : sseq)
              (a b : nat) (old : sscores T) : res (sscores T) :=
     simd_guard zero 32 (length pssm) q a b old
                (avx2_kernel cs lookup_permute (pssm_mem pssm pads) q a b).
 
-  Definition avx2_gather_rows_into (cs : avx2_consts) (pssm pads : list (list T)) (q : sseq)
+  Definition avx2_gather_rows_into (cs : avx2_consts) (pssm : list (list T)) (pads : nat -> list T) (q : sseq)
              (a b : nat) (old : sscores T) : res (sscores T) :=
     simd_guard zero 32 (length pssm) q a b old
                (avx2_kernel cs lookup_gather (pssm_mem pssm pads) q a b).
 
   (* Avx2::score_f32_rows_into: A::K::USIZE <= 8 selects the permute kernel *)
-  Definition avx2_rows_into (csp csg : avx2_consts) (K : nat) (pssm pads : list (list T))
+  Definition avx2_rows_into (csp csg : avx2_consts) (K : nat) (pssm : list (list T)) (pads : nat -> list T)
              (q : sseq) (a b : nat) (old : sscores T) : res (sscores T) :=
     if K <=? 8 then avx2_permute_rows_into csp pssm pads q a b old
     else avx2_gather_rows_into csg pssm pads q a b old.
@@ -261,7 +264,7 @@ Section Simd.
   (* the table `match self.backend` of impl Score<f32, ..> for Pipeline<A, Dispatch>,
      re-extracted from dispatch.rs by the translator *)
   Definition dispatch_rows_into (table : arm -> kernel_id) (csp csg : avx2_consts) (K : nat)
-             (pssm pads : list (list T)) (ar : arm) (q : sseq) (a b : nat) (old : sscores T)
+             (pssm : list (list T)) (pads : nat -> list T) (ar : arm) (q : sseq) (a b : nat) (old : sscores T)
     : res (sscores T) :=
     match table ar with
     | KAvx2 => avx2_rows_into csp csg K pssm pads q a b old
@@ -320,7 +323,7 @@ Definition avx2_layout_ok (cs : avx2_consts) : bool :=
   match all_some (map mask_cols (ac_masks cs)) with
   | None => false
   | Some kss =>
-      forallb (fun ks => length ks =? 8) kss &&
+      forallb (fun ks => (length ks =? 8) && forallb (fun k => k <? 32) ks) kss &&
       forallb (fun p => match p with (ia, ib, imm) =>
                  (ia <? length kss) && (ib <? length kss) &&
                  negb (N.testbit imm 3) && negb (N.testbit imm 7) end) (ac_perm cs) &&
